@@ -443,6 +443,10 @@ class Checker:
     def on_step(self, ev):
         op = ev["op"]
         if ev["phase"] == "begin":
+            if op != "probe":
+                self.last_op = op
+            if op == "construct":
+                self.constructed_over_stored = ev.get("stored") is not None
             if "val" in ev and ev["val"] is not None:
                 self.val = ev["val"]
             self.quiet_step = None
@@ -500,7 +504,9 @@ class Checker:
                 self.rej("C10.users-model", "sm.model is not the model object supplied by the user")
             return
         if ev.get("cur") != self.state:
-            self.rej("C01.state-after-event", f"current_state is {ev.get('cur')} but reference says {self.state}")
+            rule = {"construct": "C11.resume-untouched" if self.constructed_over_stored else "C11.initial-activation",
+                    "activate": "C11.initial-activation", "write": "C10.valid-write"}.get(self.last_op, "C01.state-after-event")
+            self.rej(rule, f"current_state is {ev.get('cur')} but reference says {self.state} (after {self.last_op})")
         exp_field = repr(self.value_of(self.state))
         if ev.get("field") != exp_field:
             self.rej("C10.model-field", f"model field {ev.get('field')} != {exp_field}")
@@ -691,6 +697,8 @@ class Checker:
 
     propagating = None
     quiet_step = None
+    last_op = None
+    constructed_over_stored = False
 
     # ---- callbacks
     def _locate_ctx_for(self, tok, cid, ev):
@@ -995,6 +1003,12 @@ class Checker:
 
     def on_note(self, ev):
         pass
+
+    def on_cb_write(self, ev):
+        """A callback wrote another valid value to the model field (external write in flight)."""
+        self.state = ev["target"]
+        self.stats["external_writes"] = self.stats.get("external_writes", 0) + 1
+        self.stats["writes_in_flight"] = self.stats.get("writes_in_flight", 0) + 1
 
 
 def check_log(spec, log, value_of=None, strict_args=True, prepare=None):
